@@ -327,6 +327,15 @@ func runC06(c *Cfg) {
 			}
 		}
 	}
+	// a failing post is still called once per run, whatever retry budget the node carries for its items
+	for _, budget := range []int{2, 3, 5} {
+		for _, cc := range []int{0, 2} {
+			for bi, b := range []string{"builder", "options", "compose", "builder-mode-first"} {
+				n := 1 + (budget+cc+bi)%4
+				sc = append(sc, &BatchCase{Family: "failing-post-with-item-retries", N: n, C: cc, Budget: budget, FB: b == "options" || b == "compose", Items: altItems(n), Shape: "results", Build: b, ExecStyle: []string{"result", "any"}[bi%2], PostFail: true, SetMode: bi%2 == 0, Stop: bi == 2})
+			}
+		}
+	}
 	for _, n := range []int{128, 200, 300, 1000} { // far beyond 64 items, free-running, failing items among them
 		for _, cc := range []int{0, 2, 8, 16} {
 			it := make([]ItemScript, n)
@@ -446,6 +455,55 @@ func runC07(c *Cfg) {
 		runBatchRace(c, "C07")
 		return
 	}
+	// a continue-mode batch run from inside the items of a STOP-mode batch: its failing item prevents nothing — neither
+	// its own siblings nor (the inner run succeeds) anything in the surrounding batch
+	for _, oc := range []int{0, 1, 2} {
+		for _, ic := range []int{0, 1, 3} {
+			for _, n := range []int{4, 7} {
+				for f := 0; f < n; f += 2 {
+					if !c.Mine(oc + ic + n + f) {
+						continue
+					}
+					ex, errSlots, outerOK, outerErr := nestedContinueRun(oc, ic, n, f)
+					r.Eval()
+					r.Count("nested_continue.runs", 1)
+					nc := map[string]any{"family": "continue-batch-inside-stop-batch", "outer_c": oc, "inner_c": ic, "n": n, "fail_at": f}
+					for o, items := range ex {
+						if len(items) != n {
+							r.Violate("C07", "C07:nested-continue-batch-items-skipped", fmt.Sprintf("a continue-mode batch (concurrency %d, %d items, item %d fails) run from item %d of a stop-mode batch (concurrency %d): %d of its %d items were executed (%v) — a failing item never prevents another item's processing", ic, n, f, o, oc, len(items), n, items), nc)
+							break
+						}
+						if errSlots[o] != 1 {
+							r.Violate("C07", "C07:nested-continue-batch-slots", fmt.Sprintf("continue-mode batch inside a stop-mode batch: %d of its %d result slots are errors, exactly item %d failed", errSlots[o], n, f), nc)
+							break
+						}
+					}
+					if outerErr == nil && outerOK != 3 {
+						r.Violate("C07", "C07:nested-continue-batch-stops-the-outer-batch", fmt.Sprintf("every item of the surrounding stop-mode batch ran a continue-mode batch to its (successful) end, yet only %d of its 3 slots are successes", outerOK), nc)
+					}
+					r.Nontrivial(fmt.Sprintf("nc %d %d %d %d", oc, ic, n, f))
+				}
+			}
+		}
+	}
+	// the context is cancelled inside an item's last permitted (failing) attempt: the item still gets its fallback
+	var lastAtt []*BatchCase
+	for _, cc := range []int{0, 1, 3} {
+		for _, budget := range []int{1, 2, 4} {
+			for _, fbe := range []bool{false, true} {
+				n := 4
+				it := make([]ItemScript, n)
+				for j := range it {
+					it[j].K, it[j].FBE = budget+1, fbe
+				}
+				lastAtt = append(lastAtt, &BatchCase{Family: "cancel-inside-the-last-permitted-attempt", N: n, C: cc, SetMode: true, Budget: budget, FB: true, Items: it, Shape: "results", Build: []string{"options", "compose"}[budget%2], ExecStyle: []string{"result", "any"}[cc%2], Gated: true, Policy: "holdfail", Cancel: &CancelSpec{Kind: []string{"cancel", "deadline"}[budget%2], Item: cc % 2, Attempt: budget}})
+			}
+		}
+	}
+	gatedLoop(c, len(lastAtt), func(i int) *BatchCase { return lastAtt[i] }, func(i int, cs *BatchCase, o *BatchObs) {
+		r.Count("cancel_in_last_attempt.runs", 1)
+		r.Nontrivial(fmt.Sprintf("cla %d %d %v", cs.C, cs.Budget, cs.Items[0].FBE))
+	}, "C07")
 	// items that carry equal payloads are still separate items: each one is processed, also while an equal one is in flight
 	for _, cc := range []int{0, 2, 3, 8} {
 		for _, kind := range []string{"ints", "strings", "results", "any"} {
@@ -725,6 +783,75 @@ func nestedStopRun(oc, ic, n, f int) (executed [][]int, successBehind int) {
 	return
 }
 
+// nestedContinueRun: the other way round — every item of a STOP-mode batch (3 items, concurrency oc) runs a
+// CONTINUE-mode batch of n items (concurrency ic) whose item f fails for good. The inner batches still process every
+// item, their runs succeed, so the outer batch has no failing item and stops nowhere.
+func nestedContinueRun(oc, ic, n, f int) (innerExec [][]int, innerErrSlots []int, outerOK int, outerErr error) {
+	outerN := 3
+	innerExec = make([][]int, outerN)
+	innerErrSlots = make([]int, outerN)
+	var mu sync.Mutex
+	inner := func(o int) flyt.Node {
+		return flyt.NewBatchNode().WithBatchConcurrency(ic).
+			WithPrepFunc(func(ctx context.Context, s *flyt.SharedStore) ([]flyt.Result, error) {
+				r := make([]flyt.Result, n)
+				for i := range r {
+					r[i] = flyt.NewResult(i)
+				}
+				return r, nil
+			}).
+			WithExecFuncAny(func(ctx context.Context, v any) (any, error) {
+				i := v.(int)
+				mu.Lock()
+				innerExec[o] = append(innerExec[o], i)
+				mu.Unlock()
+				if i == f {
+					return nil, fmt.Errorf("inner item %d fails", i)
+				}
+				return i, nil
+			}).
+			WithPostFunc(func(ctx context.Context, s *flyt.SharedStore, items, results []flyt.Result) (flyt.Action, error) {
+				for i := range results {
+					if results[i].IsError() {
+						mu.Lock()
+						innerErrSlots[o]++
+						mu.Unlock()
+					}
+				}
+				return "done", nil
+			})
+	}
+	outer := flyt.NewBatchNode().WithBatchConcurrency(oc).WithBatchErrorHandling(false).
+		WithPrepFunc(func(ctx context.Context, s *flyt.SharedStore) ([]flyt.Result, error) {
+			r := make([]flyt.Result, outerN)
+			for i := range r {
+				r[i] = flyt.NewResult(i)
+			}
+			return r, nil
+		}).
+		WithExecFuncAny(func(ctx context.Context, v any) (any, error) {
+			_, err := flyt.Run(ctx, inner(v.(int)), flyt.NewSharedStore())
+			return v, err
+		}).
+		WithPostFunc(func(ctx context.Context, s *flyt.SharedStore, items, results []flyt.Result) (flyt.Action, error) {
+			for _, r := range results {
+				if !r.IsError() {
+					outerOK++
+				}
+			}
+			return "done", nil
+		})
+	func() {
+		defer func() {
+			if p := recover(); p != nil {
+				outerErr = fmt.Errorf("panic: %v", p)
+			}
+		}()
+		_, outerErr = flyt.Run(context.Background(), outer, flyt.NewSharedStore())
+	}()
+	return
+}
+
 func runC09(c *Cfg) {
 	r := c.Rep
 	if RaceEnabled {
@@ -825,6 +952,24 @@ func runC09(c *Cfg) {
 						idx++
 					}
 				}
+			}
+		}
+	}
+	// large stop-mode batches (64 items and more) on a node that has already run a large batch to its end: what the
+	// earlier run left behind does not turn never-executed items into successes
+	for _, n := range []int{64, 96, 130} {
+		for _, cc := range []int{0, 1, 3} {
+			for _, f := range []int{0, 7} {
+				it := make([]ItemScript, n)
+				for j := range it {
+					it[j].K = 1
+				}
+				it[f].K = 2
+				pre := make([]ItemScript, n+8)
+				for j := range pre {
+					pre[j].K = 1
+				}
+				cases = append(cases, &BatchCase{Family: "stop-large-after-earlier-large-run", N: n, C: cc, Stop: true, SetMode: true, Budget: 1, Items: it, Shape: "results", Build: "builder", ExecStyle: []string{"result", "any"}[(n+cc)%2], Gated: true, Policy: "holdfail", Prelude: &Prelude{N: n + 8, Items: pre}})
 			}
 		}
 	}
